@@ -101,12 +101,15 @@ func (s *storeMemoizer) GraphNames(ctx context.Context, names chan<- string) err
 type graphMemoizer struct {
 	g storage.Graph
 
-	mu   sync.RWMutex
-	memN map[string][]*node.Node
-	memP map[string][]*predicate.Predicate
-	memO map[string][]*triple.Object
-	memT map[string][]*triple.Triple
-	memE map[string]bool
+	mu sync.RWMutex
+	// version counts the updates seen so far. Results that were fetched
+	// before an update must not be memoized after it.
+	version uint64
+	memN    map[string][]*node.Node
+	memP    map[string][]*predicate.Predicate
+	memO    map[string][]*triple.Object
+	memT    map[string][]*triple.Triple
+	memE    map[string]bool
 }
 
 // ID returns the id for this graph.
@@ -117,31 +120,35 @@ func (g *graphMemoizer) ID(ctx context.Context) string {
 // AddTriples adds the triples to the storage. Adding a triple that already
 // exists should not fail.
 func (g *graphMemoizer) AddTriples(ctx context.Context, ts []*triple.Triple) error {
-	g.mu.Lock()
-	// Update operations reset the memoization.
-	g.memN = make(map[string][]*node.Node)
-	g.memP = make(map[string][]*predicate.Predicate)
-	g.memO = make(map[string][]*triple.Object)
-	g.memT = make(map[string][]*triple.Triple)
-	g.memE = make(map[string]bool)
-	g.mu.Unlock()
-
+	// Update operations reset the memoization, before the update so that no
+	// hit is served once it has started, and after it so that nothing read
+	// while it was in progress stays memoized.
+	g.reset()
+	defer g.reset()
 	return g.g.AddTriples(ctx, ts)
 }
 
 // RemoveTriples removes the triples from the storage. Removing triples that
 // are not present on the store should not fail.
 func (g *graphMemoizer) RemoveTriples(ctx context.Context, ts []*triple.Triple) error {
+	// Update operations reset the memoization, before the update so that no
+	// hit is served once it has started, and after it so that nothing read
+	// while it was in progress stays memoized.
+	g.reset()
+	defer g.reset()
+	return g.g.RemoveTriples(ctx, ts)
+}
+
+// reset flushes all memoized results.
+func (g *graphMemoizer) reset() {
 	g.mu.Lock()
-	// Update operations reset the memoization.
+	g.version++
 	g.memN = make(map[string][]*node.Node)
 	g.memP = make(map[string][]*predicate.Predicate)
 	g.memO = make(map[string][]*triple.Object)
 	g.memT = make(map[string][]*triple.Triple)
 	g.memE = make(map[string]bool)
 	g.mu.Unlock()
-
-	return g.g.RemoveTriples(ctx, ts)
 }
 
 func combinedUUID(op string, lo *storage.LookupOptions, uuids ...uuid.UUID) string {
@@ -173,7 +180,7 @@ func combinedUUID(op string, lo *storage.LookupOptions, uuids ...uuid.UUID) stri
 func (g *graphMemoizer) Objects(ctx context.Context, s *node.Node, p *predicate.Predicate, lo *storage.LookupOptions, objs chan<- *triple.Object) error {
 	k := combinedUUID("Objects", lo, s.UUID(), p.UUID())
 	g.mu.RLock()
-	v := g.memO[k]
+	v, version := g.memO[k], g.version
 	g.mu.RUnlock()
 	if v != nil {
 		// Return the memoized results.
@@ -215,7 +222,9 @@ func (g *graphMemoizer) Objects(ctx context.Context, s *node.Node, p *predicate.
 	}
 	wg.Wait()
 	g.mu.Lock()
-	g.memO[k] = mobjs
+	if g.version == version {
+		g.memO[k] = mobjs
+	}
 	g.mu.Unlock()
 	return err
 }
@@ -242,7 +251,7 @@ func (g *graphMemoizer) Objects(ctx context.Context, s *node.Node, p *predicate.
 func (g *graphMemoizer) Subjects(ctx context.Context, p *predicate.Predicate, o *triple.Object, lo *storage.LookupOptions, subs chan<- *node.Node) error {
 	k := combinedUUID("Subjects", lo, p.UUID(), o.UUID())
 	g.mu.RLock()
-	v := g.memN[k]
+	v, version := g.memN[k], g.version
 	g.mu.RUnlock()
 	if v != nil {
 		// Return the memoized results.
@@ -284,7 +293,9 @@ func (g *graphMemoizer) Subjects(ctx context.Context, p *predicate.Predicate, o 
 	}
 	wg.Wait()
 	g.mu.Lock()
-	g.memN[k] = msubs
+	if g.version == version {
+		g.memN[k] = msubs
+	}
 	g.mu.Unlock()
 	return err
 }
@@ -301,7 +312,7 @@ func (g *graphMemoizer) Subjects(ctx context.Context, p *predicate.Predicate, o 
 func (g *graphMemoizer) PredicatesForSubject(ctx context.Context, s *node.Node, lo *storage.LookupOptions, prds chan<- *predicate.Predicate) error {
 	k := combinedUUID("PredicatesForSubject", lo, s.UUID())
 	g.mu.RLock()
-	v := g.memP[k]
+	v, version := g.memP[k], g.version
 	g.mu.RUnlock()
 	if v != nil {
 		// Return the memoized results.
@@ -343,7 +354,9 @@ func (g *graphMemoizer) PredicatesForSubject(ctx context.Context, s *node.Node, 
 	}
 	wg.Wait()
 	g.mu.Lock()
-	g.memP[k] = mpreds
+	if g.version == version {
+		g.memP[k] = mpreds
+	}
 	g.mu.Unlock()
 	return err
 }
@@ -360,7 +373,7 @@ func (g *graphMemoizer) PredicatesForSubject(ctx context.Context, s *node.Node, 
 func (g *graphMemoizer) PredicatesForObject(ctx context.Context, o *triple.Object, lo *storage.LookupOptions, prds chan<- *predicate.Predicate) error {
 	k := combinedUUID("PredicatesForObject", lo, o.UUID())
 	g.mu.RLock()
-	v := g.memP[k]
+	v, version := g.memP[k], g.version
 	g.mu.RUnlock()
 	if v != nil {
 		// Return the memoized results.
@@ -402,7 +415,9 @@ func (g *graphMemoizer) PredicatesForObject(ctx context.Context, o *triple.Objec
 	}
 	wg.Wait()
 	g.mu.Lock()
-	g.memP[k] = mpreds
+	if g.version == version {
+		g.memP[k] = mpreds
+	}
 	g.mu.Unlock()
 	return err
 }
@@ -419,7 +434,7 @@ func (g *graphMemoizer) PredicatesForObject(ctx context.Context, o *triple.Objec
 func (g *graphMemoizer) PredicatesForSubjectAndObject(ctx context.Context, s *node.Node, o *triple.Object, lo *storage.LookupOptions, prds chan<- *predicate.Predicate) error {
 	k := combinedUUID("PredicatesForSubjectAndObject", lo, s.UUID(), o.UUID())
 	g.mu.RLock()
-	v := g.memP[k]
+	v, version := g.memP[k], g.version
 	g.mu.RUnlock()
 	if v != nil {
 		// Return the memoized results.
@@ -461,7 +476,9 @@ func (g *graphMemoizer) PredicatesForSubjectAndObject(ctx context.Context, s *no
 	}
 	wg.Wait()
 	g.mu.Lock()
-	g.memP[k] = mpreds
+	if g.version == version {
+		g.memP[k] = mpreds
+	}
 	g.mu.Unlock()
 	return err
 }
@@ -478,7 +495,7 @@ func (g *graphMemoizer) PredicatesForSubjectAndObject(ctx context.Context, s *no
 func (g *graphMemoizer) TriplesForSubject(ctx context.Context, s *node.Node, lo *storage.LookupOptions, trpls chan<- *triple.Triple) error {
 	k := combinedUUID("TriplesForSubject", lo, s.UUID())
 	g.mu.RLock()
-	v := g.memT[k]
+	v, version := g.memT[k], g.version
 	g.mu.RUnlock()
 	if v != nil {
 		// Return the memoized results.
@@ -520,7 +537,9 @@ func (g *graphMemoizer) TriplesForSubject(ctx context.Context, s *node.Node, lo 
 	}
 	wg.Wait()
 	g.mu.Lock()
-	g.memT[k] = mts
+	if g.version == version {
+		g.memT[k] = mts
+	}
 	g.mu.Unlock()
 	return err
 }
@@ -537,7 +556,7 @@ func (g *graphMemoizer) TriplesForSubject(ctx context.Context, s *node.Node, lo 
 func (g *graphMemoizer) TriplesForPredicate(ctx context.Context, p *predicate.Predicate, lo *storage.LookupOptions, trpls chan<- *triple.Triple) error {
 	k := combinedUUID("TriplesForPredicate", lo, p.UUID())
 	g.mu.RLock()
-	v := g.memT[k]
+	v, version := g.memT[k], g.version
 	g.mu.RUnlock()
 	if v != nil {
 		// Return the memoized results.
@@ -579,7 +598,9 @@ func (g *graphMemoizer) TriplesForPredicate(ctx context.Context, p *predicate.Pr
 	}
 	wg.Wait()
 	g.mu.Lock()
-	g.memT[k] = mts
+	if g.version == version {
+		g.memT[k] = mts
+	}
 	g.mu.Unlock()
 	return err
 }
@@ -596,7 +617,7 @@ func (g *graphMemoizer) TriplesForPredicate(ctx context.Context, p *predicate.Pr
 func (g *graphMemoizer) TriplesForObject(ctx context.Context, o *triple.Object, lo *storage.LookupOptions, trpls chan<- *triple.Triple) error {
 	k := combinedUUID("TriplesForObject", lo, o.UUID())
 	g.mu.RLock()
-	v := g.memT[k]
+	v, version := g.memT[k], g.version
 	g.mu.RUnlock()
 	if v != nil {
 		// Return the memoized results.
@@ -638,7 +659,9 @@ func (g *graphMemoizer) TriplesForObject(ctx context.Context, o *triple.Object, 
 	}
 	wg.Wait()
 	g.mu.Lock()
-	g.memT[k] = mts
+	if g.version == version {
+		g.memT[k] = mts
+	}
 	g.mu.Unlock()
 	return err
 }
@@ -655,7 +678,7 @@ func (g *graphMemoizer) TriplesForObject(ctx context.Context, o *triple.Object, 
 func (g *graphMemoizer) TriplesForSubjectAndPredicate(ctx context.Context, s *node.Node, p *predicate.Predicate, lo *storage.LookupOptions, trpls chan<- *triple.Triple) error {
 	k := combinedUUID("TriplesForSubjectAndPredicate", lo, s.UUID(), p.UUID())
 	g.mu.RLock()
-	v := g.memT[k]
+	v, version := g.memT[k], g.version
 	g.mu.RUnlock()
 	if v != nil {
 		// Return the memoized results.
@@ -697,7 +720,9 @@ func (g *graphMemoizer) TriplesForSubjectAndPredicate(ctx context.Context, s *no
 	}
 	wg.Wait()
 	g.mu.Lock()
-	g.memT[k] = mts
+	if g.version == version {
+		g.memT[k] = mts
+	}
 	g.mu.Unlock()
 	return err
 }
@@ -714,7 +739,7 @@ func (g *graphMemoizer) TriplesForSubjectAndPredicate(ctx context.Context, s *no
 func (g *graphMemoizer) TriplesForPredicateAndObject(ctx context.Context, p *predicate.Predicate, o *triple.Object, lo *storage.LookupOptions, trpls chan<- *triple.Triple) error {
 	k := combinedUUID("TriplesForPredicateAndObject", lo, p.UUID(), o.UUID())
 	g.mu.RLock()
-	v := g.memT[k]
+	v, version := g.memT[k], g.version
 	g.mu.RUnlock()
 	if v != nil {
 		// Return the memoized results.
@@ -756,7 +781,9 @@ func (g *graphMemoizer) TriplesForPredicateAndObject(ctx context.Context, p *pre
 	}
 	wg.Wait()
 	g.mu.Lock()
-	g.memT[k] = mts
+	if g.version == version {
+		g.memT[k] = mts
+	}
 	g.mu.Unlock()
 	return err
 }
@@ -766,6 +793,7 @@ func (g *graphMemoizer) Exist(ctx context.Context, t *triple.Triple) (bool, erro
 	k := combinedUUID("Exist", storage.DefaultLookup, t.UUID())
 	g.mu.RLock()
 	v, ok := g.memE[k]
+	version := g.version
 	g.mu.RUnlock()
 	if ok {
 		// Return the memoized results.
@@ -776,7 +804,9 @@ func (g *graphMemoizer) Exist(ctx context.Context, t *triple.Triple) (bool, erro
 	b, err := g.g.Exist(ctx, t)
 	if err == nil {
 		g.mu.Lock()
-		g.memE[k] = b
+		if g.version == version {
+			g.memE[k] = b
+		}
 		g.mu.Unlock()
 	}
 	return b, err
@@ -788,7 +818,7 @@ func (g *graphMemoizer) Exist(ctx context.Context, t *triple.Triple) (bool, erro
 func (g *graphMemoizer) Triples(ctx context.Context, lo *storage.LookupOptions, trpls chan<- *triple.Triple) error {
 	k := combinedUUID("Triples", lo)
 	g.mu.RLock()
-	v := g.memT[k]
+	v, version := g.memT[k], g.version
 	g.mu.RUnlock()
 	if v != nil {
 		// Return the memoized results.
@@ -830,7 +860,9 @@ func (g *graphMemoizer) Triples(ctx context.Context, lo *storage.LookupOptions, 
 	}
 	wg.Wait()
 	g.mu.Lock()
-	g.memT[k] = mts
+	if g.version == version {
+		g.memT[k] = mts
+	}
 	g.mu.Unlock()
 	return err
 }
